@@ -244,7 +244,7 @@ func c16Term1(c *Ctx, t c16Term) {
 	spec := &esp.Spec{
 		Recv:   tn.Type().(*types.Named),
 		Fields: map[string]bool{},
-		Atom:   guardName,
+		Atom:   c16Guard,
 		Inline: func(callee *ssa.Function) bool { return callee.Pkg == sp && len(callee.Blocks) > 0 },
 	}
 	spec.MultiAction = func(call ssa.CallInstruction) []string {
@@ -529,4 +529,25 @@ func drainsEnqueued(f *ssa.Function, drain callPred) (bool, string) {
 		return false, "no release call found"
 	}
 	return true, ""
+}
+
+// c16Guard names only the conditions that can decide whether a resource handle is present; error checks on the
+// results of the release calls themselves (logged and ignored by the code) are explored without being recorded,
+// which keeps the configuration space small.
+func c16Guard(cond ssa.Value) (string, []string, bool) {
+	name, fields, ok := guardName(cond)
+	if !ok {
+		return "", nil, false
+	}
+	if i := strings.Index(name, "()"); i > 0 && !strings.HasPrefix(name, "len(") && !strings.HasPrefix(name, "elem(") && !strings.HasPrefix(name, "found(") {
+		switch name[:i] {
+		case "GetPool", "ParseMAC", "GetSession", "Lookup":
+		default:
+			return "", nil, false
+		}
+	}
+	if strings.HasPrefix(name, "call:") && !strings.HasPrefix(name, "call:Has") {
+		return "", nil, false
+	}
+	return name, fields, true
 }
